@@ -262,6 +262,27 @@ func main() {
 			}
 			fmt.Printf("%s%s\n", n, c)
 		}
+	case "sites":
+		// developer helper: list the call-site names (callee#n) of a function with their source positions
+		e, err := loadEngine(repoDir)
+		if err != nil {
+			fmt.Fprintln(os.Stderr, err)
+			os.Exit(2)
+		}
+		for _, name := range os.Args[2:] {
+			fn := e.funcs[name]
+			if fn == nil {
+				continue
+			}
+			for _, b := range fn.Blocks {
+				for _, in := range b.Instrs {
+					if ci, ok := in.(ssa.CallInstruction); ok {
+						cn := strings.ReplaceAll(e.calleeName(ci.Common()), "github.com/joeycumines/go-bigbuff.", "")
+						fmt.Printf("%s: %s#%d  %s\n", name, cn, e.callOrdinal(fn, in, e.calleeName(ci.Common())), e.posOf(in))
+					}
+				}
+			}
+		}
 	case "verify":
 		cmdVerify(os.Args[2:])
 	case "check":
